@@ -301,6 +301,8 @@ class CallMixin:
         self.havoc_modifies(con, c0, s3)
         res = self.fresh_result(con, s3)
         c1 = Ctx(bound, old, s3.heap, res=res, st=s3)
+        for d in con.spec_defs(c0):
+            s3.assume(d, name="spec-def")      # conservative definitions of spec functions
         self.assume_clauses(s3, con.ensures(c1))
         out.append((res, s3))
         return out
